@@ -459,6 +459,31 @@ class _Misc(ast.NodeTransformer):
         # getattr(x, "name") -> x.name
         if isinstance(f, ast.Name) and f.id == "getattr" and len(n.args) == 2 and isinstance(n.args[1], ast.Constant) and isinstance(n.args[1].value, str) and n.args[1].value.isidentifier():
             return ast.copy_location(ast.Attribute(value=n.args[0], attr=n.args[1].value, ctx=ast.Load()), n)
+        # list(A if c else B) -> list(A) if c else list(B)
+        if isinstance(f, ast.Name) and f.id == "list" and len(n.args) == 1 and not n.keywords and isinstance(n.args[0], ast.IfExp):
+            ie = n.args[0]
+            new = ast.IfExp(test=ie.test, body=self.visit_Call(ast.copy_location(ast.Call(func=ast.Name(id="list", ctx=ast.Load()), args=[ie.body], keywords=[]), n)), orelse=self.visit_Call(ast.copy_location(ast.Call(func=ast.Name(id="list", ctx=ast.Load()), args=[ie.orelse], keywords=[]), n)))
+            ast.copy_location(new, n)
+            ast.fix_missing_locations(new)
+            return new
+        # list(filter(P, xs)) -> [e for e in xs if P(e)] ; list(filterfalse(P, xs)) -> [e for e in xs if not P(e)]   (P a name or a lambda)
+        if isinstance(f, ast.Name) and f.id == "list" and len(n.args) == 1 and not n.keywords and isinstance(n.args[0], ast.Call) and ast.unparse(n.args[0].func) in ("filter", "filterfalse", "itertools.filterfalse") and len(n.args[0].args) == 2 and not n.args[0].keywords:
+            pred, xs = n.args[0].args
+            neg = ast.unparse(n.args[0].func).endswith("filterfalse")
+            var = "e__n"
+            test = None
+            if isinstance(pred, ast.Name):
+                test = ast.Call(func=ast.Name(id=pred.id, ctx=ast.Load()), args=[ast.Name(id=var, ctx=ast.Load())], keywords=[])
+            elif isinstance(pred, ast.Lambda) and len(pred.args.args) == 1:
+                test = _NameConst(pred.args.args[0].arg, ast.Name(id=var, ctx=ast.Load())).visit(ast.parse(ast.unparse(pred.body), mode="eval").body)
+            if test is not None:
+                if neg:
+                    test = ast.UnaryOp(op=ast.Not(), operand=test)
+                new = ast.ListComp(elt=ast.Name(id=var, ctx=ast.Load()), generators=[ast.comprehension(target=ast.Name(id=var, ctx=ast.Store()), iter=xs, ifs=[test], is_async=0)])
+                ast.copy_location(new, n)
+                ast.fix_missing_locations(new)
+                self.log.append(f"list(filter(...)) written as a comprehension {self.modname}:{n.lineno}")
+                return new
         # f(*[a, b], c) -> f(a, b, c)
         if any(isinstance(a, ast.Starred) and isinstance(a.value, (ast.List, ast.Tuple)) for a in n.args):
             new = []
@@ -609,6 +634,58 @@ class _Misc(ast.NodeTransformer):
                     out.append(nb)
         return out
 
+    def _function_valued_locals(self, stmts):
+        """p = partial(F, a, k=v) ; ... p(x) ...      ->  ... F(a, x, k=v) ...
+           g = A if c else B      ; ... g(x) ...      ->  ... (A(x) if c else B(x)) ...
+        for a local bound once in this block and used only as the function of calls (or as the first argument of
+        filter / filterfalse / map) in the statements that follow; c and the partial's arguments are plain names / constants."""
+        for i, st in enumerate(stmts):
+            if not (isinstance(st, ast.Assign) and len(st.targets) == 1 and isinstance(st.targets[0], ast.Name)):
+                continue
+            nm, v = st.targets[0].id, st.value
+            kind = None
+            if isinstance(v, ast.Call) and ast.unparse(v.func) in ("partial", "functools.partial") and v.args and isinstance(v.args[0], (ast.Name, ast.Attribute)) and all(isinstance(a, (ast.Name, ast.Constant, ast.Attribute)) or (isinstance(a, ast.Call) and ast.unparse(a.func) in ("re.compile",)) for a in list(v.args[1:]) + [k.value for k in v.keywords]) and all(k.arg for k in v.keywords):
+                kind = "partial"
+            elif isinstance(v, ast.IfExp) and isinstance(v.body, ast.Name) and isinstance(v.orelse, ast.Name) and isinstance(v.test, (ast.Name, ast.UnaryOp, ast.Compare)):
+                kind = "choice"
+            if kind is None:
+                continue
+            rest = stmts[i + 1 :]
+            uses = [x for b in rest for x in ast.walk(b) if isinstance(x, ast.Name) and x.id == nm]
+            if not uses or any(isinstance(x.ctx, (ast.Store, ast.Del)) for x in uses):
+                continue
+            stores_elsewhere = sum(1 for b in stmts for x in ast.walk(b) if isinstance(x, ast.Name) and x.id == nm and isinstance(x.ctx, ast.Store))
+            if stores_elsewhere != 1:
+                continue
+            call_uses = [c for b in rest for c in ast.walk(b) if isinstance(c, ast.Call) and isinstance(c.func, ast.Name) and c.func.id == nm]
+            arg_uses = [c for b in rest for c in ast.walk(b) if isinstance(c, ast.Call) and ast.unparse(c.func) in ("filter", "filterfalse", "itertools.filterfalse", "map") and c.args and isinstance(c.args[0], ast.Name) and c.args[0].id == nm]
+            if len(call_uses) + len(arg_uses) != len(uses):
+                continue
+            # a partial that holds a call (re.compile) may be used once only (it is evaluated once)
+            if kind == "partial" and any(isinstance(a, ast.Call) for a in list(v.args[1:]) + [k.value for k in v.keywords]) and len(uses) != 1:
+                continue
+
+            class R(ast.NodeTransformer):
+                def visit_Call(self, c):
+                    self.generic_visit(c)
+                    if isinstance(c.func, ast.Name) and c.func.id == nm:
+                        if kind == "partial":
+                            return ast.copy_location(ast.Call(func=_copy(v.args[0]), args=[_copy(a) for a in v.args[1:]] + c.args, keywords=[ast.keyword(arg=k.arg, value=_copy(k.value)) for k in v.keywords] + c.keywords), c)
+                        return ast.copy_location(ast.IfExp(test=_copy(v.test), body=ast.Call(func=_copy(v.body), args=c.args, keywords=c.keywords), orelse=ast.Call(func=_copy(v.orelse), args=[_copy(a) for a in c.args], keywords=[ast.keyword(arg=k.arg, value=_copy(k.value)) for k in c.keywords])), c)
+                    if ast.unparse(c.func) in ("filter", "filterfalse", "itertools.filterfalse", "map") and c.args and isinstance(c.args[0], ast.Name) and c.args[0].id == nm and kind == "partial":
+                        lam = ast.Lambda(args=ast.arguments(posonlyargs=[], args=[ast.arg(arg="e__p")], kwonlyargs=[], kw_defaults=[], defaults=[]), body=ast.Call(func=_copy(v.args[0]), args=[_copy(a) for a in v.args[1:]] + [ast.Name(id="e__p", ctx=ast.Load())], keywords=[ast.keyword(arg=k.arg, value=_copy(k.value)) for k in v.keywords]))
+                        c.args = [lam] + c.args[1:]
+                    return c
+
+            if kind == "choice" and arg_uses:
+                continue
+            new_rest = [R().visit(b) for b in rest]
+            for b in new_rest:
+                ast.fix_missing_locations(b)
+            self.log.append(f"function-valued local `{nm}` ({kind}) substituted {self.modname}:{st.lineno}")
+            return self._function_valued_locals(stmts[:i] + new_rest)
+        return stmts
+
     def _simplify_in(self, stmts):
         """setattr(x, "c", v) -> x.c = v ;  if (A if C else None) is not None: ...A'...  ->  if C: ...A...  (A never None)"""
         # a local bound once (in this block) to a tuple / list of literals is read as that literal further down the block
@@ -630,8 +707,34 @@ class _Misc(ast.NodeTransformer):
                     st = _NameConst(nm, v).visit(st)
                 new_stmts.append(st)
             stmts = new_stmts
+        stmts = self._function_valued_locals(stmts)
         out = []
         for st in stmts:
+            # return [..comprehension..] if c else [..comprehension..]  ->  if c: return [...] else: return [...]
+            if isinstance(st, ast.Return) and isinstance(st.value, ast.IfExp) and isinstance(st.value.body, (ast.ListComp, ast.List)) and isinstance(st.value.orelse, (ast.ListComp, ast.List)):
+                new = ast.If(test=st.value.test, body=[ast.Return(value=st.value.body)], orelse=[ast.Return(value=st.value.orelse)])
+                ast.copy_location(new, st)
+                for x in (new.body[0], new.orelse[0]):
+                    ast.copy_location(x, st)
+                ast.fix_missing_locations(new)
+                self.log.append(f"return A if c else B split {self.modname}:{st.lineno}")
+                out.append(new)
+                continue
+            # for x in takewhile(lambda e: P(e), xs): B   ->  for x in xs: if not P(x): break; B
+            # for x in filter(lambda e: P(e), xs): B      ->  for x in xs: if not P(x): continue; B      (filterfalse: if P(x))
+            if isinstance(st, ast.For) and isinstance(st.target, ast.Name) and isinstance(st.iter, ast.Call) and ast.unparse(st.iter.func) in ("takewhile", "itertools.takewhile", "filter", "filterfalse", "itertools.filterfalse") and len(st.iter.args) == 2 and not st.iter.keywords and isinstance(st.iter.args[0], ast.Lambda) and len(st.iter.args[0].args.args) == 1 and not st.orelse:
+                lam = st.iter.args[0]
+                kind = ast.unparse(st.iter.func).split(".")[-1]
+                test = _NameConst(lam.args.args[0].arg, ast.Name(id=st.target.id, ctx=ast.Load())).visit(ast.parse(ast.unparse(lam.body), mode="eval").body)
+                cond = test if kind == "filterfalse" else ast.UnaryOp(op=ast.Not(), operand=test)
+                guard = ast.If(test=cond, body=[ast.Break() if kind == "takewhile" else ast.Continue()], orelse=[])
+                st.iter = st.iter.args[1]
+                st.body = [guard] + st.body
+                ast.copy_location(guard, st)
+                for x in ast.walk(guard):
+                    ast.copy_location(x, st)
+                ast.fix_missing_locations(st)
+                self.log.append(f"{kind}(lambda) loop written with an explicit guard {self.modname}:{st.lineno}")
             # d.update({"a": x, "b": y})  ->  d["a"] = x; d["b"] = y
             if isinstance(st, ast.Expr) and isinstance(st.value, ast.Call) and isinstance(st.value.func, ast.Attribute) and st.value.func.attr == "update" and len(st.value.args) == 1 and not st.value.keywords and isinstance(st.value.args[0], ast.Dict) and st.value.args[0].keys and all(isinstance(k, ast.Constant) for k in st.value.args[0].keys):
                 recv = st.value.func.value
@@ -731,6 +834,23 @@ class _Misc(ast.NodeTransformer):
                 for t, op in zip(st.targets[0].elts, (ast.FloorDiv(), ast.Mod())):
                     out.append(ast.copy_location(ast.Assign(targets=[ast.Name(id=t.id, ctx=ast.Store())], value=ast.BinOp(left=_copy(a), op=op, right=_copy(b))), st))
                 self.log.append(f"divmod split {self.modname}:{st.lineno}")
+            elif (
+                isinstance(st, ast.Assign)
+                and len(st.targets) == 1
+                and isinstance(st.targets[0], ast.Tuple)
+                and isinstance(st.value, ast.Call)
+                and ast.unparse(st.value.func) in ("urlparse", "urllib.parse.urlparse", "parse.urlparse")
+                and len(st.targets[0].elts) == 6
+                and all(isinstance(t, ast.Name) for t in st.targets[0].elts)
+            ):
+                # scheme, netloc, path, params, query, fragment = urlparse(u): a ParseResult is that named 6-tuple
+                tmp = "parsed__n"
+                out.append(ast.copy_location(ast.Assign(targets=[ast.Name(id=tmp, ctx=ast.Store())], value=st.value), st))
+                for t, field in zip(st.targets[0].elts, ("scheme", "netloc", "path", "params", "query", "fragment")):
+                    out.append(ast.copy_location(ast.Assign(targets=[ast.Name(id=t.id, ctx=ast.Store())], value=ast.Attribute(value=ast.Name(id=tmp, ctx=ast.Load()), attr=field, ctx=ast.Load())), st))
+                for x in out[-7:]:
+                    ast.fix_missing_locations(x)
+                self.log.append(f"urlparse result unpacked by field {self.modname}:{st.lineno}")
             elif isinstance(st, ast.Assign) and len(st.targets) == 1 and isinstance(st.targets[0], (ast.Tuple, ast.List)) and len(st.targets[0].elts) == 1 and isinstance(st.targets[0].elts[0], ast.Name):
                 # (x,) = E  ->  x = E[0]   (E evaluated once either way; the length check of the unpacking is dropped)
                 out.append(ast.copy_location(ast.Assign(targets=[ast.Name(id=st.targets[0].elts[0].id, ctx=ast.Store())], value=ast.Subscript(value=st.value, slice=ast.Constant(value=0), ctx=ast.Load())), st))
